@@ -449,8 +449,9 @@ class PSBaseParser:
             return i + 1
 
         elif self.oct:
-            chrcode = int(self.oct, 8)
-            assert chrcode < 256, "Invalid octal %s (%d)" % (repr(self.oct), chrcode)
+            # High-order overflow of a three-digit octal escape is ignored
+            # (ISO 32000-1, 7.3.4.2): \777 is the byte 0xFF.
+            chrcode = int(self.oct, 8) & 0xFF
             self._curtoken += bytes((chrcode,))
             self._parse1 = self._parse_string
             return i
